@@ -33,6 +33,16 @@ ASSUMPTIONS = ['datedelta is absent from the sandbox: harness/shims/datedelta im
                'early/mid/late prefixes, weekend, month-to-date/year-to-date branches of _parse_one_word_period are '
                'not modelled (monitored by C11/C19)']
 
+FINGERPRINTS = {'DateUtils.this': '6ae1c138c40e9f11', 'DateUtils.next': 'cf69080177d11982', 'DateUtils.last': '7e979dffc1250d33',
+                'DateUtils.safe_create_from_value': '7911b510a7fb4914', 'DateUtils.is_valid_date': 'b009b164560df4ab',
+                'AgoLaterUtil.get_date_result': 'ce946d43a40675ee', 'DateTimeFormatUtil.luis_date': 'c0bdccb0169441fc',
+                'BaseDateParser.parse_implicit_date': '4f2120247cbf4084',
+                'BaseDatePeriodParser._parse_one_word_period': 'bc7552d8c95daa64',
+                'BaseDateTimeParser.parse_basic_regex': 'fb42b4e84e270260'}
+EXPLANATION = ('Lean theorems about the model of the date arithmetic (every reference, every N, no bound) + correspondence '
+               'of that model with the working tree (CPython calendar, datedelta shim, DateUtils, AgoLaterUtil, the two '
+               'parser functions; unit + pipeline) + the property computed independently on recognize_datetime output. '
+               'A tree that follows the repaired month variant (shift the first of the month) is accepted silently.')
 WEEKDAYS = ['monday', 'tuesday', 'wednesday', 'thursday', 'friday', 'saturday', 'sunday']
 SPECIAL = [('today', 0), ('tomorrow', 1), ('yesterday', -1)]
 SWIFTS = [('this', 0), ('next', 1), ('last', -1)]
@@ -229,13 +239,21 @@ def unit_parsers(ctx, days):
             ctx.count('parse_basic_regex(now)')
     model = common.driver(lines)
     ctx.count('parse_implicit_date/_parse_one_word_period', len(lines))
-    n_bad = 0
-    for l, e, a, b in zip(lines, meta, impl, model):
-        if a != b:
-            n_bad += 1
-            if n_bad <= 3:
-                ctx.report('correspondence', 'parser-' + l.split('\t')[0][3:], '%s (%r): implementation %s, model %s' % (l, e, a, b),
-                           failing_input={'op': l, 'expression': e, 'implementation': a, 'model': b})
+    diff = [i for i, (a, b) in enumerate(zip(impl, model)) if a != b]
+    mdiff = [i for i in diff if lines[i].startswith('du.month\t')]
+    if mdiff:
+        # does the tree follow the repaired variant (shift the first of the month)?  DESIGN 2.5
+        fixed = common.driver([lines[i].replace('du.month\t', 'du.monthfixed\t', 1) for i in mdiff])
+        ok = {i for i, f in zip(mdiff, fixed) if impl[i] == f}
+        if len(ok) == len(mdiff):
+            ctx.extra['month_period_variant'] = 'repaired (first of the month shifted)'
+        diff = [i for i in diff if i not in ok]
+    else:
+        ctx.extra['month_period_variant'] = 'current (reference + datedelta(months=swift))'
+    for i in diff[:3]:
+        ctx.report('correspondence', 'parser-' + lines[i].split('\t')[0][3:], '%s (%r): implementation %s, model %s' % (
+            lines[i], meta[i], impl[i], model[i]),
+            failing_input={'op': lines[i], 'expression': meta[i], 'implementation': impl[i], 'model': model[i]})
     ctx.sample({'op': lines[7], 'expression': meta[7], 'implementation': impl[7]})
 
 
@@ -336,6 +354,17 @@ def correspond(ctx):
     import recognizers_date_time
     from recognizers_date_time.date_time.utilities import DateUtils
     common.assert_tree_modules(recognizers_date_time)
+    from recognizers_date_time.date_time.utilities import AgoLaterUtil, DateTimeFormatUtil
+    from recognizers_date_time.date_time.base_date import BaseDateParser
+    from recognizers_date_time.date_time.base_dateperiod import BaseDatePeriodParser
+    from recognizers_date_time.date_time.base_datetime import BaseDateTimeParser
+    calcorr.fingerprints(ctx, {
+        'DateUtils.this': DateUtils.this, 'DateUtils.next': DateUtils.next, 'DateUtils.last': DateUtils.last,
+        'DateUtils.safe_create_from_value': DateUtils.safe_create_from_value, 'DateUtils.is_valid_date': DateUtils.is_valid_date,
+        'AgoLaterUtil.get_date_result': AgoLaterUtil.get_date_result, 'DateTimeFormatUtil.luis_date': DateTimeFormatUtil.luis_date,
+        'BaseDateParser.parse_implicit_date': BaseDateParser.parse_implicit_date,
+        'BaseDatePeriodParser._parse_one_word_period': BaseDatePeriodParser._parse_one_word_period,
+        'BaseDateTimeParser.parse_basic_regex': BaseDateTimeParser.parse_basic_regex}, FINGERPRINTS)
     calcorr.calendar_unit(ctx, 'c08')
     bdays = calcorr.boundary_days()
     dense = calcorr.all_days(2019, 2021) + calcorr.all_days(2000, 2000)
